@@ -976,8 +976,25 @@ func runC02R3(c *Ctx) {
 		} else {
 			// the client's side of the shared conn type is not the packet manager's business: told by whose code it is
 			// (a method of Client / clientConn / File, or the client's constructor), not by a list of names
-			allowed := func(fn *ssa.Function) bool {
-				return isClientSide(fn) || fnName(fn) == "(*serverConn).sendError"
+			var allowed func(fn *ssa.Function) bool
+			depth := 0
+			allowed = func(fn *ssa.Function) bool {
+				if isClientSide(fn) || fnName(fn) == "(*serverConn).sendError" {
+					return true
+				}
+				// a plain function of the client's: every caller of it is the client's
+				sites := p.callersOfStatic(fn)
+				if len(sites) == 0 || depth > 2 || len(p.refsAsValue(fn)) > 0 {
+					return false
+				}
+				depth++
+				defer func() { depth-- }()
+				for _, s := range sites {
+					if !allowed(outermost(s.Parent())) {
+						return false
+					}
+				}
+				return true
 			}
 			for _, in := range p.callersOfStatic(connSend) {
 				c.check(allowed(outermost(in.Parent())), "R3", "caller of conn.sendPacket: "+fnName(in.Parent()), pos(in),
